@@ -35,6 +35,32 @@ def observed_delete_target(doc, f, t):
     return "ok", list(spy.seen[0])
 
 
+def tie_delete_range_step(ctx, info, doc, f, t, reqs, metas):
+    """Transform.delete_range(f, t) as a whole: the step it records (lean/PM/Fitter.lean `deleteRangeStep`), exactly"""
+    tr = Transform(doc)
+    st, val = outcome(lambda: tr.delete_range(f, t))
+    if st == "hang":
+        ctx.count("delete_range step:hang (not compared)")
+        return
+    if st != "ok":
+        exp = RAISES
+    elif len(tr.steps) == 0:
+        exp = ["none"]
+    elif len(tr.steps) == 1:
+        exp = ["step", SchemaStep(info, tr.steps[0])]
+    else:
+        exp = "more than one step"
+    replay = {"schema": info.name, "doc": doc.to_json(), "op": "delete_range", "args": [f, t],
+              "steps": [s_.to_json() for s_ in tr.steps]}
+    reqs.append({"op": "deleteRangeStep", "s": info.lean_id, "doc": info.node(doc), "from": f, "to": t})
+    metas.append(("deleteRangeStep", replay, exp))
+    ctx.count("delete_range step:" + (exp[0] if isinstance(exp, list) else str(exp)))
+
+
+def SchemaStep(info, step):
+    return info.step(step)
+
+
 def answer(out):
     """the model's answer in comparable form"""
     if "ok" in out:
@@ -151,4 +177,5 @@ def tie_fill_wrap(ctx, info, rng, frags, reqs, metas, per_state=2):
                 ctx.count("find_wrapping exact:" + ("raises" if st != "ok" else "none" if chain is None else "len%d" % len(chain)))
 
 
-EXACT_OPS = ("fitsTrivially", "replaceStepTrivial", "deleteRangeTarget", "replaceStep", "fillBeforeO", "findWrappingO")
+EXACT_OPS = ("fitsTrivially", "replaceStepTrivial", "deleteRangeTarget", "deleteRangeStep", "replaceStep", "fillBeforeO",
+             "findWrappingO")
